@@ -265,6 +265,61 @@ func Run(c *core.Check) {
 			}
 		}
 	}
+	// the number grammar itself: int part x fraction x exponent over small digit alphabets
+	digs := []string{"0", "1", "5", "9"}
+	var ints, fracs []string
+	for _, a := range digs {
+		ints = append(ints, a)
+	}
+	for _, a := range digs[1:] {
+		for _, b := range digs {
+			ints = append(ints, a+b)
+			for _, d := range digs {
+				ints = append(ints, a+b+d)
+			}
+		}
+	}
+	fracs = append(fracs, "")
+	var grow func(p string, n int)
+	grow = func(p string, n int) {
+		if p != "" {
+			fracs = append(fracs, "."+p)
+		}
+		if n == 0 {
+			return
+		}
+		for _, d := range digs {
+			grow(p+d, n-1)
+		}
+	}
+	grow("", c.Pick(3, 4))
+	exps := []string{"", "e0", "e1", "e2", "e3", "e4", "e5", "e+4", "e-1", "e-2", "e-3", "e-5", "E2", "e10"}
+	p := core.Product{len(ints), len(fracs), len(exps), 2}
+	c.Family("number-grammar").Bound = fmt.Sprintf("%d integer parts x %d fractions x %d exponents x sign, in an array and as an object value, KeepNumbers off/on", len(ints), len(fracs), len(exps))
+	c.ParallelRange("number-grammar", p.Size(), func(i uint64) {
+		d := p.Decode(i, nil)
+		n := ints[d[0]] + fracs[d[1]] + exps[d[2]]
+		if d[3] == 1 {
+			n = "-" + n
+		}
+		var cases, nt uint64
+		for _, wrap := range []string{"[%s]", "{\"a\":%s}"} {
+			in := strings.ReplaceAll(wrap, "%s", n)
+			for _, keep := range []bool{false, true} {
+				kind, what, out := CheckOne(in, keep)
+				cases++
+				if out != in {
+					nt++
+					c.Nontrivial(in, fmt.Sprint(keep))
+				}
+				if kind != "" {
+					c.Fail(core.Failure{Family: "number-grammar", Input: in, Config: fmt.Sprintf("KeepNumbers=%v", keep), Kind: kind, What: what, Order: i})
+				}
+			}
+		}
+		c.Count(cases)
+		c.AddFamily("number-grammar", cases, nt)
+	})
 }
 
 // Replay re-executes one failure.
